@@ -1,6 +1,11 @@
 package s2
 
-import "github.com/golang/geo/s1"
+import (
+	"math"
+
+	"github.com/golang/geo/r1"
+	"github.com/golang/geo/s1"
+)
 
 // C05 — coverings cover, interior coverings are contained, level limits honoured.
 // The real coverer (candidate queue, child expansion, level adjustment,
@@ -124,5 +129,30 @@ func Harness_C05_fast_covering_levels() {
 	cov := rc.FastCovering(cap)
 	vr.Assert("FastCovering respects MinLevel/MaxLevel/LevelMod", vrLevelsOK(rc, cov))
 	vr.Assert("FastCovering covers the cap centre", cov.ContainsPoint(cap.Center()))
+	vr.Reach("end")
+}
+
+// The same covering check on a thin, wide latitude-longitude rectangle on a polar face (wide
+// enough that the initial candidates are the face cells, so cell ids stay concrete; the
+// region predicates of Rect: IntersectsCell through the constant-latitude edge test).
+func vrC05Rect() Rect {
+	return Rect{
+		Lat: r1.Interval{Lo: -50 * math.Pi / 180, Hi: -49.999 * math.Pi / 180},
+		Lng: s1.Interval{Lo: 20 * math.Pi / 180, Hi: math.Pi},
+	}
+}
+
+func Harness_C05_covering_covers_rect() {
+	vr.Domain("FPX")
+	vr.Unwind(4000)
+	vr.NoMerge()
+	rc := vrC05Coverer()
+	rect := vrC05Rect()
+	cov := rc.Covering(rect)
+	vr.Assert("rect covering respects MinLevel/MaxLevel/LevelMod", vrLevelsOK(rc, cov))
+	for _, lng := range []float64{30, 60, 78, 100, 140, 175} {
+		p := PointFromLatLng(LatLng{Lat: s1.Angle(-49.9995 * math.Pi / 180), Lng: s1.Angle(lng * math.Pi / 180)})
+		vr.Assert("every probe point of the rectangle lies in some covering cell", cov.ContainsPoint(p))
+	}
 	vr.Reach("end")
 }
